@@ -6,6 +6,7 @@ import (
 	"context"
 	"errors"
 	"io"
+	"io/fs"
 )
 
 // ---- fault-injectable stub bucket (every operation may fail; failures are recorded) ----
@@ -15,10 +16,49 @@ var (
 	vErrInjected   = errors.New("injected fault")
 )
 
+// vErrKind: the *kind* of every injected error on this path, chosen (by the solver) at the first injection:
+// a generic error, a not-exist flavoured *fs.PathError, context.Canceled, io.ErrShortWrite. Code that treats some error
+// kinds as "not really a failure" is thereby exercised with a failing destination / source of that kind.
+var vErrKind = -1
+
+func vReset() {
+	vFaultObserved = false
+	vErrKind = -1
+}
+
+// vInjected returns the error value to inject (param KINDS = how many of the kinds are explored).
+func vInjected() error {
+	if vErrKind < 0 {
+		vErrKind = verifNondetChoice(verifParam("KINDS"))
+	}
+	switch vErrKind {
+	case 1:
+		return &fs.PathError{Op: "open", Path: "injected", Err: fs.ErrNotExist}
+	case 2:
+		return context.Canceled
+	case 3:
+		return io.ErrShortWrite
+	}
+	return vErrInjected
+}
+
+// vIsInjected: the injected error (of this path's kind) is in err's chain.
+func vIsInjected(err error) bool {
+	switch vErrKind {
+	case 1:
+		return errors.Is(err, fs.ErrNotExist)
+	case 2:
+		return errors.Is(err, context.Canceled)
+	case 3:
+		return errors.Is(err, io.ErrShortWrite)
+	}
+	return errors.Is(err, vErrInjected)
+}
+
 func vFail(enabled bool) error {
 	if enabled {
 		vFaultObserved = true
-		return vErrInjected
+		return vInjected()
 	}
 	return nil
 }
@@ -152,7 +192,7 @@ func vCheckWriteSide(wb *vWriteBucket, err error, want string, label string) {
 // VerifLemma_C15A_CopyPath: copyPath (Get, Put, SetExternal/LocalPath, io.Copy, both Closes) under every
 // combination of injected failures.
 func VerifLemma_C15A_CopyPath() {
-	vFaultObserved = false
+	vReset()
 	rb, wb := vNewReadBucket(), vNewWriteBucket()
 	copyExt, atomic := verifNondetBool(), verifNondetBool()
 	err := copyPath(context.Background(), rb, "p", wb, "q", copyExt, atomic)
@@ -174,7 +214,7 @@ func VerifLemma_C15A_CopyPath() {
 
 // VerifLemma_C15A_CopyReadObject: the exported CopyReadObject.
 func VerifLemma_C15A_CopyReadObject() {
-	vFaultObserved = false
+	vReset()
 	rb, wb := vNewReadBucket(), vNewWriteBucket()
 	var opts []CopyOption
 	if verifNondetBool() {
@@ -190,7 +230,7 @@ func VerifLemma_C15A_CopyReadObject() {
 
 // VerifLemma_C15A_CopyReader: CopyReader(io.Reader).
 func VerifLemma_C15A_CopyReader() {
-	vFaultObserved = false
+	vReset()
 	rb, wb := vNewReadBucket(), vNewWriteBucket()
 	err := CopyReader(context.Background(), wb, rb.obj, "q")
 	verifCover("returned")
@@ -199,7 +239,7 @@ func VerifLemma_C15A_CopyReader() {
 
 // VerifLemma_C15A_PutPath: PutPath(data).
 func VerifLemma_C15A_PutPath() {
-	vFaultObserved = false
+	vReset()
 	wb := vNewWriteBucket()
 	data := verifNondetString(verifParam("DATA"))
 	var opts []PutOption
@@ -215,7 +255,7 @@ func VerifLemma_C15A_PutPath() {
 
 // VerifLemma_C15A_ForWriteObject: ForWriteObject with a callback that writes and may itself fail.
 func VerifLemma_C15A_ForWriteObject() {
-	vFaultObserved = false
+	vReset()
 	wb := vNewWriteBucket()
 	data := verifNondetString(verifParam("DATA"))
 	cbFail := verifNondetBool()
@@ -231,7 +271,7 @@ func VerifLemma_C15A_ForWriteObject() {
 
 // VerifLemma_C15A_ReadPath: ReadPath reports Get/Read/Close failures and otherwise returns the content.
 func VerifLemma_C15A_ReadPath() {
-	vFaultObserved = false
+	vReset()
 	rb := vNewReadBucket()
 	data, err := ReadPath(context.Background(), rb, "p")
 	verifCover("returned")
@@ -244,7 +284,7 @@ func VerifLemma_C15A_ReadPath() {
 
 // VerifLemma_C15A_WalkReadObjects: callback and Close failures both surface.
 func VerifLemma_C15A_WalkReadObjects() {
-	vFaultObserved = false
+	vReset()
 	rb := vNewReadBucket()
 	cbFail := verifNondetBool()
 	var got []byte
